@@ -35,7 +35,7 @@ TECHNIQUE = ("runtime monitoring of the real foreign platform layers over a stub
              "oracle from the C builders + errno/winerror fault enumeration at every native call index with an "
              "error-translation-contract oracle")
 RULE = ("one case = (platform, operation, pid|pid 0, fault plan, process state) or (platform, operation/system "
-        "function, record variant) or (platform, net_if_addrs rows) or (platform, documented name). Operations = the "
+        "function, record variant) or (platform, net_if_addrs rows: 9-11 single-purpose tables + 60 generated ones with several adapters and rows, computable and un-computable netmasks side by side) or (platform, documented name). Operations = the "
         "public psutil.Process methods of that platform plus every public method of the layer's own Process class "
         "called directly (found by dir()). Fault plans enumerate every per-process native call / procfs access / "
         "waitpid index i the platform method issues (call stack decides) x errno in {ESRCH, ENOENT, EPERM, EACCES, "
